@@ -444,10 +444,11 @@ def check_conn(eng, run):
             return [fact]
 
         def branch(self, test, fact):
-            if isinstance(test, ast.Compare) and isinstance(test.ops[0], ast.Is) and isinstance(test.comparators[0], ast.Constant) and test.comparators[0].value is None and dotted(test.left) == "client":
+            if isinstance(test, ast.Compare) and isinstance(test.ops[0], ast.Is) and isinstance(test.comparators[0], ast.Constant) and test.comparators[0].value is None and dotted(test.left) in client_vars:
                 return [fact | {"none-client"}], [fact]
             return [fact], [fact]
 
+    client_vars = {it.optional_vars.id for w in own_nodes(h.node) if isinstance(w, ast.AsyncWith) for it in w.items[:1] if isinstance(it.optional_vars, ast.Name)}
     an = EarlyReturn(eng)
     Interp(an, h).run()
     for v in an.viol[:1]:
